@@ -220,8 +220,13 @@ impl Sut {
                 },
                 "uninit" => typed_dispatch!(b, r.ty.as_str(), r.name.clone(), add_datum_allow_uninit),
                 "dynamic" => {
-                    // a spelling with extra whitespace: lookups are normalised
-                    let spelled = r.ty.replace(" ", "  ");
+                    // the caller's spelling is not the canonical one: extra / no whitespace, fully qualified std paths
+                    // (a fresh heap string each time). Lookups are normalised and the canonical name is what gets recorded.
+                    let spelled = match r.name.len() % 3 {
+                        0 => r.ty.replace(" ", "  "),
+                        1 => r.ty.replace(" ", ""),
+                        _ => r.ty.replace("String", "alloc::string::String").replace("Vec", "alloc::vec::Vec").replace("Option", "core::option::Option"),
+                    };
                     b.add_dynamic_datum(r.name.clone(), spelled)
                 }
                 "copy" => {
@@ -313,6 +318,13 @@ impl Sut {
         let f = |d: &DatumDefinition<NativeDatumDetails>| {
             (d.details().offset(), d.details().size(), d.details().type_align())
         };
+        match self {
+            Sut::Native(b) => catch(|| f(&b[DatumId::from(id)])).ok(),
+            Sut::Generic(b) => b.get_datum_definition(DatumId::from(id)).map(f),
+        }
+    }
+    fn type_name(&self, id: usize) -> Option<String> {
+        let f = |d: &DatumDefinition<NativeDatumDetails>| d.details().type_name().to_string();
         match self {
             Sut::Native(b) => catch(|| f(&b[DatumId::from(id)])).ok(),
             Sut::Generic(b) => b.get_datum_definition(DatumId::from(id)).map(f),
@@ -600,6 +612,15 @@ impl<'a> Session<'a> {
                         self.ora.hit("C18", format!("entry point `{}` recorded {}/{} for datum {} of type {}, the resolver / override supplied {}/{}", r.entry, sz, al, id, r.ty, r.size, r.align));
                     }
                 }
+                // C17: whatever the caller's spelling, the recorded type name is the canonical one (the table's key); explicit
+                // names (override, copy, generic) are recorded verbatim
+                if let Some(tn) = self.sut.as_ref().unwrap().type_name(id) {
+                    if tn != r.ty {
+                        let p = if matches!(r.entry, "dynamic" | "typed" | "uninit" | "ovr-n" | "ovr-s" | "ovr-a") { "C17" } else { "C18" };
+                        self.ora.hit(p, format!("entry point `{}` recorded the type name `{}` for datum {}, expected `{}`", r.entry, tn, id, r.ty));
+                        if r.entry == "copy" { self.ora.hit("C20", format!("copy_datum recorded the type name `{}` for a datum whose source says `{}`", tn, r.ty)); }
+                    }
+                }
                 self.ora.on_add(id, &r.name);
                 self.n_ids = self.n_ids.max(id + 1);
                 Some(id)
@@ -693,7 +714,7 @@ impl<'a> Session<'a> {
                 got.map(|i| format!("some {}", i)).unwrap_or("none".into())
             }
             "vbyname" => sut.vbyname(toks[1].parse().unwrap(), toks[2]).map(|i| format!("some {}", i)).unwrap_or("none".into()),
-            "get" => sut.get(toks[1].parse().unwrap()).map(|i| format!("some {}", i.replace("  ", " "))).unwrap_or("none".into()),
+            "get" => sut.get(toks[1].parse().unwrap()).map(|i| format!("some {}", i)).unwrap_or("none".into()),
             "variant" => sut.variant(toks[1].parse().unwrap()).map(|l| format!("some [{}]", join(&l))).unwrap_or("none".into()),
             _ => "bad-op".into(),
         };
@@ -948,7 +969,9 @@ fn gen_add(rng: &mut Rng, table: usize, native: bool, name: String, zst_heavy: b
     let k = rng.below(100);
     if k < 70 {
         let (s, a) = if zst_heavy && rng.chance(1, 3) { SHAPES[rng.below(4)] } else { *rng.pick(&SHAPES) };
-        AddReq { name, ty: format!("T{}x{}", s, a), size: s, align: a, uninit: rng.chance(1, 4), entry: "override" }
+        // explicit type names are taken verbatim, however they are spelled
+        let ty = if rng.chance(1, 6) { rng.pick(&["Vec<MyStruct>", "alloc::vec::Vec<u8>", "core::option::Option<crate::Unit>", "my::Ty<u8,u16>", "(u8,)"]).to_string() } else { format!("T{}x{}", s, a) };
+        AddReq { name, ty, size: s, align: a, uninit: rng.chance(1, 4), entry: "override" }
     } else {
         let tbl = synthetic_table(table);
         if k < 80 {
@@ -971,7 +994,8 @@ fn gen_add(rng: &mut Rng, table: usize, native: bool, name: String, zst_heavy: b
             }
         } else {
             let (s, a) = *rng.pick(&SHAPES);
-            AddReq { name, ty: format!("T{}x{}", s, a), size: s, align: a, uninit: rng.chance(1, 2), entry: "copy" }
+            let ty = if rng.chance(1, 3) { rng.pick(&["Vec<MyStruct>", "alloc::string::String", "core::option::Option<u8>"]).to_string() } else { format!("T{}x{}", s, a) };
+            AddReq { name, ty, size: s, align: a, uninit: rng.chance(1, 2), entry: "copy" }
         }
     }
 }
@@ -1000,7 +1024,12 @@ fn random_history(rng: &mut Rng, out: &mut Out, stats: &mut Stats, hist: usize) 
         // removals
         if !live.is_empty() {
             let p = 1 + rng.below(4);
-            for &id in live.clone().iter() {
+            // removals are requested in any order (not only oldest first)
+            let mut order = live.clone();
+            if rng.chance(2, 3) {
+                for i in (1..order.len()).rev() { let j = rng.below(i + 1); order.swap(i, j); }
+            }
+            for &id in order.iter() {
                 if rng.chance(p, 6) {
                     if s.rm(id) {
                         live.retain(|&x| x != id);
@@ -1218,6 +1247,15 @@ fn main() {
         for h in 0..count {
             let mut r = rng.fork();
             random_history(&mut r, &mut out, &mut stats, h);
+        }
+    } else if mode == "twice" {
+        let mut rng = Rng::new(seed);
+        for h in 0..count {
+            let r = rng.fork();
+            let mut r1 = r.clone();
+            let mut r2 = r.clone();
+            random_history(&mut r1, &mut out, &mut stats, 2 * h);
+            random_history(&mut r2, &mut out, &mut stats, 2 * h + 1);
         }
     } else if mode.starts_with("exhaustive-") {
         let (m, sh) = mode.split_once(':').unwrap_or((mode, "0/1"));
